@@ -106,7 +106,24 @@ func solveOne(o *Obligation, dir string, timeout int) {
 	if txt == "" {
 		// rendered here, in the worker, and not kept: the text of all obligations of a property does
 		// not fit in memory (terms are immutable, rendering only reads them)
-		txt = EmitSMTWith(o.funs, o.Hyps, o.Goal, o.Cover, o.Watch)
+		tooLarge := false
+		func() {
+			defer func() {
+				if r := recover(); r != nil {
+					if _, ok := r.(smtTooLarge); ok {
+						tooLarge = true
+						return
+					}
+					panic(r)
+				}
+			}()
+			txt = EmitSMTWith(o.funs, o.Hyps, o.Goal, o.Cover, o.Watch)
+		}()
+		if tooLarge {
+			o.Status = "timeout"
+			o.Model = fmt.Sprintf("the query text exceeds %d MB (terms under a quantifier cannot be shared): not sent to a solver, undecided", smtCapBytes>>20)
+			return
+		}
 	}
 	if err := os.WriteFile(file, []byte(txt), 0o644); err != nil {
 		o.Status = "error"
